@@ -205,6 +205,14 @@ class State(object):
             self.add_fact(g)
         return ob
 
+    def cover(self, name, cond):
+        """vacuity guard: `pc and cond` must be satisfiable (recorded as goal Not(cond), expected to be REFUTED)"""
+        c = cond.e if isinstance(cond, SymBool) else (cond if z3.is_expr(cond) else z3.BoolVal(bool(cond)))
+        ob = Obligation(name, "cover", list(self.pc), z3.Not(c), "", None)
+        ob.observe = {}
+        self.obligations.append(ob)
+        return ob
+
     def fresh_int(self, prefix="v"):
         v = sym.mk_int(sym.fresh_name(prefix))
         return v
@@ -239,6 +247,7 @@ class Obj(object):
     def __init__(self, cls):
         object.__setattr__(self, "_cls", cls)
         object.__setattr__(self, "_f", {})
+        object.__setattr__(self, "_partial", False)
 
     def __repr__(self):
         return "<Obj %s %s>" % (self._cls.name, {k: v for k, v in self._f.items() if not k.startswith("_cached")})
@@ -667,6 +676,26 @@ class Interp(object):
                 return c.ns[name]
         return None
 
+    def declared_fields(self, cls):
+        """instance fields a class declares: __slots__ entries and self.<name> targets in __init__ (over the mro)"""
+        cache = self.__dict__.setdefault("_declared_fields", {})
+        if cls in cache:
+            return cache[cls]
+        out = set()
+        for c in cls.mro:
+            sl = c.ns.get("__slots__")
+            if isinstance(sl, (list, tuple)):
+                out.update(x for x in sl if isinstance(x, str))
+            init = c.ns.get("__init__")
+            node = getattr(init, "node", None)
+            if node is not None:
+                for n in ast.walk(node):
+                    if isinstance(n, ast.Attribute) and isinstance(n.ctx, ast.Store) and \
+                            isinstance(n.value, ast.Name) and n.value.id == "self":
+                        out.add(n.attr)
+        cache[cls] = out
+        return out
+
     def has_class_attr(self, cls, name):
         for c in cls.mro:
             if name in c.ns:
@@ -688,6 +717,10 @@ class Interp(object):
                     for rb in b.bases:
                         if not isinstance(rb, ClassVal) and hasattr(rb, name) and name not in ("__init__",):
                             raise Unsupported("attribute %s inherited from native base" % name)
+                if getattr(v, "_partial", False) and name in self.declared_fields(v._cls):
+                    # harness-built object: a field the class declares (slot or assigned in __init__) but the
+                    # contract does not model -> undecided, never a verdict
+                    raise Unsupported("field %s.%s is not modelled by the contract" % (v._cls.name, name))
                 raise ProgExc(AttributeError, "%s.%s" % (v._cls.name, name))
             return self._bind(a, v, v._cls)
         if isinstance(v, ClassVal):
@@ -731,6 +764,12 @@ class Interp(object):
         try:
             return getattr(v, name)
         except AttributeError:
+            mod = getattr(type(v), "__module__", "") or ""
+            if mod.split(".")[0] in ("pyvc", "contracts", "spec") and name not in getattr(v, "_absent", ()):
+                # v is one of the verifier's model objects: an attribute the model does not implement is a limit
+                # of the model (undecided), never evidence that the program raises AttributeError.  Model classes
+                # list in `_absent` the attributes the modelled Python type genuinely lacks.
+                raise Unsupported("model %s does not implement attribute %r" % (type(v).__name__, name))
             raise ProgExc(AttributeError, "%s.%s" % (type(v).__name__, name))
 
     def _package_attr(self, name):
